@@ -19,12 +19,15 @@ Yes(bs) == [ok |-> TRUE, bs |-> bs]
 
 \* (IF-shaped, not \/: inside an action TLC explores both sides of a disjunction, and the
 \*  right-hand sides would overflow TLC's 32-bit integers exactly where the C guards matter)
+\* c.fault = 1: the harness made an allocation request of this very call fail (and the failure was delivered): the call
+\* may then be refused, the contents stay as they were (C08 on C19's histories)
+FaultOf(c) == IF "fault" \in DOMAIN c THEN c.fault ELSE 0
 AppendMustRefuse(bs, n) == IF n < 0 THEN TRUE ELSE n > IntMax - Len(bs) - 1
 AppendMayRefuse(bs, n)  == IF AppendMustRefuse(bs, n) THEN TRUE ELSE Len(bs) + n + 1 >= BigAlloc
 \* c = [n, b, step, ret]
 AppendStep(bs, c) ==
     IF c.ret = c.n /\ ~AppendMustRefuse(bs, c.n) THEN Yes(bs \o Pat(c.b, c.step, c.n))
-    ELSE IF c.ret = -1 /\ AppendMayRefuse(bs, c.n) THEN Yes(bs)
+    ELSE IF c.ret = -1 /\ (IF FaultOf(c) = 1 THEN TRUE ELSE AppendMayRefuse(bs, c.n)) THEN Yes(bs)
     ELSE No(bs)
 
 EffOff(bs, off) == IF off = -1 THEN Len(bs) ELSE off
@@ -37,7 +40,7 @@ MemsetResult(bs, o, ch, n) ==
 \* c = [off, ch, n, ret]
 MemsetStep(bs, c) ==
     IF c.ret = 0 /\ ~MemsetMustRefuse(bs, c.off, c.n) THEN Yes(MemsetResult(bs, EffOff(bs, c.off), c.ch, c.n))
-    ELSE IF c.ret = -1 /\ MemsetMayRefuse(bs, c.off, c.n) THEN Yes(bs)
+    ELSE IF c.ret = -1 /\ (IF FaultOf(c) = 1 THEN TRUE ELSE MemsetMayRefuse(bs, c.off, c.n)) THEN Yes(bs)
     ELSE No(bs)
 
 ResetStep(bs, c) == Yes(<<>>)
